@@ -461,6 +461,8 @@ class World(object):
         except HarnessError:
             raise
         except BaseException as e:
+            if type(e).__name__ == "Violation":
+                raise               # raised by a frame monitor of the harness, not by the server
             if self.crashed:
                 pass
             else:
